@@ -238,6 +238,9 @@ func runTests(n *Node, dst reflect.Value, path string, out *SpecOut) {
 			out.add("", ts.Opts.Code, "")
 		case "handpath":
 			out.add(ts.Opts.Path, ts.Opts.Code, "")
+		case "ctx2":
+			out.add(p, ts.Opts.Code, n.ZType())
+			out.add(p, ts.Opts.Code+"_b", n.ZType())
 		default:
 			out.add(p, ExpectedCode(n.Kind, ts), n.ZType())
 		}
